@@ -62,7 +62,7 @@ TStep == /\ l <= Len(TraceLog)
          /\ l' = l + 1
          /\ LET e == TraceLog[l] IN
             /\ Act(e)
-            /\ IF "obs" \in DOMAIN e THEN (~failed' /\ Matches(e)) ELSE failed'
+            /\ IF "obs" \in DOMAIN e THEN (~failed' /\ Matches(e)) ELSE IF "blind" \in DOMAIN e THEN ~failed' ELSE failed'
 
 TInit == Init /\ l = 1 /\ TLCSet(1, 0)
 TNext == TReset \/ TStep
